@@ -20,8 +20,9 @@ import traceback
 
 ROOT = os.path.dirname(os.path.dirname(os.path.abspath(__file__)))
 REPO = os.environ.get("VERIF_REPO", "/repo")
-EVIDENCE_DIR = os.path.join(ROOT, "evidence")
-REPLAY_DIR = os.path.join(ROOT, "replays")
+# mutant / seeded-patch evaluations redirect their output so that the committed evidence only ever comes from /repo itself
+EVIDENCE_DIR = os.environ.get("VERIF_EVIDENCE_DIR") or os.path.join(ROOT, "evidence")
+REPLAY_DIR = os.environ.get("VERIF_REPLAY_DIR") or os.path.join(ROOT, "replays")
 KNOWN_FINDINGS = os.path.join(ROOT, "known_findings.json")
 
 NCPU = int(os.environ.get("VERIF_NCPU", "0")) or min(16, os.cpu_count() or 1)
@@ -272,14 +273,16 @@ def _run_chunk(chunk):
     return out
 
 
-def pmap(fn, items, chunk=None, ncpu=None):
-    """Map ``fn`` over ``items`` in forked workers; yields ('ok', r) / ('crash', msg)."""
+def pmap(fn, items, chunk=None, ncpu=None, fresh=False):
+    """Map ``fn`` over ``items`` in forked workers; yields ('ok', r) / ('crash', msg).
+    ``fresh``: one new worker process per chunk (solver state never carries over
+    from one proof task to the next, so verdicts do not depend on scheduling)."""
     global _WORK_FN
     items = list(items)
     ncpu = ncpu or NCPU
     if not items:
         return
-    if ncpu <= 1 or len(items) < 2:
+    if (ncpu <= 1 or len(items) < 2) and not fresh:
         _WORK_FN = fn
         for r in _run_chunk(items):
             yield r
@@ -289,7 +292,7 @@ def pmap(fn, items, chunk=None, ncpu=None):
     chunks = [items[i : i + chunk] for i in range(0, len(items), chunk)]
     _WORK_FN = fn
     ctx = mp.get_context("fork")
-    with ctx.Pool(ncpu) as pool:
+    with ctx.Pool(max(1, ncpu), maxtasksperchild=1 if fresh else None) as pool:
         for res in pool.imap_unordered(_run_chunk, chunks):
             for r in res:
                 yield r
